@@ -497,6 +497,15 @@ func runC20(c *core.Case) {
 		if c.Failed() {
 			return
 		}
+		// the cosine does not depend on the lengths: the same pair scaled down to lengths of 1e-7 .. 1e-3
+		ks, kb := math.Pow(10, -r.Uniform(3, 7))/nrm, math.Pow(10, -r.Uniform(3, 7))/b.Norm()
+		as, bs := a.Scale(ks), b.Scale(kb)
+		c.Calls(2)
+		_ = chk("cos-scale-invariance", relClose(as.Cos(bs), dot/(nrm*b.Norm()), 1e-9, 1)) &&
+			chk("cos-self", relClose(as.Cos(as), 1, 1e-12, 1))
+		if c.Failed() {
+			return
+		}
 		p, q := spatial.Point3(a), spatial.Point3(b)
 		ln := spatial.NewLineFromPoints(p, q)
 		_ = chk("line-start", ln.ToPoint(0) == p && ln.Start() == p) &&
